@@ -74,6 +74,7 @@ def seg_project(evs, what):
 
 def judge(hid, line, lifetimes, h, mline, synth_val, project="full"):
     """-> dict(corr=[...], c02=[...], c03=[...], c12=[...], c17=[...], crashed=bool, nontrivial=tuple)"""
+    lifetimes = [[o for o in ops if o != "MAPOVER"] for ops in lifetimes]      # an action of the environment between lifetimes, not an operation
     J = dict(corr=[], corr_c05=[], c01=[], c02=[], c03=[], c11=[], c12=[], c17=[], c05=[], c06=[], crashed=False)
     case = dict(id=hid, history=line)
     recs = h["recs"]
@@ -142,6 +143,10 @@ def judge(hid, line, lifetimes, h, mline, synth_val, project="full"):
     for li, ops in enumerate(lifetimes):
         for oi, op in enumerate(ops): ops_flat[(li, f"OP{oi}")] = op
     for r in recs:
+        fs = [x.split("=", 1)[1] for x in r.res.split(";") if x.startswith("foreign=")]
+        if fs and fs[0] not in ("ok", "none"):
+            v = dict(case=case, what=f"a code page mapped by somebody else (over the address of a trampoline the injector had already released) is {fs[0]} at L{r.l} {r.tag}")
+            J["c03"].append(v); J["c12"].append(v)
         if r.l != cur_l: named = set(); cur_l = r.l
         op = ops_flat.get((r.l, r.tag))
         if r.tag == "EXIT":
